@@ -385,7 +385,11 @@ class SliceNode(Node):
         )
 
     def get_unsafe_set(self):
-        return set()
+        # the bounds are plain JSON values, only the type of the node itself
+        # needs to be checked
+        if self.is_self_safe():
+            return set()
+        return {f"{self.module_name}.{self.class_name}"}
 
 
 def object_get_state(obj: Any, save_context: SaveContext) -> dict[str, Any]:
